@@ -262,11 +262,11 @@ void LDA(matrix *mx, matrix *my, LDAMODEL *lda)
   }*/
 
 
-  /*Centering data before computing the scatter matrix*/
+  /*Centering each class on its own mean before computing the within class scatter matrix*/
   for(k = 0; k < classes->order; k++){
     for(i = 0; i < classes->m[k]->row; i++){
       for(j = 0; j < classes->m[k]->col; j++){
-        classes->m[k]->data[i][j] -= mutot->data[j];
+        classes->m[k]->data[i][j] -= lda->mu->data[k][j];
       }
     }
   }
@@ -399,7 +399,7 @@ void LDA(matrix *mx, matrix *my, LDAMODEL *lda)
   for(k = 0; k < classes->order; k++){
     for(i = 0; i < classes->m[k]->row; i++){
       for(j = 0; j < classes->m[k]->col; j++){
-        classes->m[k]->data[i][j] += mutot->data[j];
+        classes->m[k]->data[i][j] += lda->mu->data[k][j];
       }
     }
   }
